@@ -14,8 +14,9 @@ from .. import sched, snapshot
 
 BOUNDS = {
     'quick': 'threads: 8 ordered formula pairs x 2 starting threads, every schedule with <= 1 preemption (all ~300 points '
-             'each) and 1 pair with <= 2 preemptions; nested: 7 outer templates x 10 inner formulas x 3 targets x every callback '
-             'invocation, depth 1, and depth 2 for 3 inner x 3 targets; bindings: all sequences of <= 2 binding operations on A x '
+             'each) and 1 pair with <= 2 preemptions; nested: 10 outer templates x 10 inner formulas x 3 targets x every callback '
+             'invocation, depth 1, every PAIR of invocations and ALL invocations at once (sibling nested evaluations), and '
+             'depth 2 for 3 inner x 3 targets; bindings: all sequences of <= 2 binding operations on A x '
              '5 probes on B',
     'thorough': 'threads: all 64 ordered pairs x 2 starts with <= 1 preemption, 8 pairs with <= 2 preemptions, 2 pairs (the '
                 'two shortest formulas) with <= 3 (a cap of 150 000 executions per shard exists and is reported if hit); nested depth 2 for all inner formulas; binding '
@@ -148,7 +149,8 @@ class Threads(Sub):
 # --------------------------------------------------------------------------
 # nested (sequential) evaluation
 
-OUTER = ['FN(1)+10', '10+FN(1)*3', 'SUM(FN(1),5)&"z"', 'va+A1', 'IF(FN(1)>1,A1,va)', 'SUM(A1:B2)+FN(2)', 'FN(FN(3))-B7']
+OUTER = ['FN(1)+10', '10+FN(1)*3', 'SUM(FN(1),5)&"z"', 'va+A1', 'IF(FN(1)>1,A1,va)', 'SUM(A1:B2)+FN(2)', 'FN(FN(3))-B7',
+         'FN(1)+FN(2)+10', 'A1+B2+va+1', 'SUM(FN(1),FN(2),4)&"t"']
 INNER = ['1+1', '"a"&"b"', '1/0', 'nosuch', '1+', 'SUM(1,2,3)*2', 'FN(5)+va', 'A1', '#N/A', '{1,2}']
 TARGETS = ('other-prebuilt', 'other-fresh', 'same')
 
@@ -168,6 +170,15 @@ class Nested(Sub):
                 for t in range(3):
                     for site in range(10):
                         yield [o, i, t, site, None]
+        # several sibling nested evaluations inside ONE outer evaluation: at every callback invocation ('all'),
+        # and at every pair of invocations
+        for o in range(len(OUTER)):
+            for i in (0, 2, 5, 6):
+                for t in range(3):
+                    yield [o, i, t, 'all', None]
+                    for s1 in range(6):
+                        for s2 in range(s1 + 1, 7):
+                            yield [o, i, t, [s1, s2], None]
         inner2 = (0, 3, 6) if tier == 'quick' else range(len(INNER))
         for o in (0, 3, 6):
             for i in inner2:
@@ -196,7 +207,9 @@ class Nested(Sub):
         nohook = lambda kind: None
         want_outer = env.out(self.build(env, nohook).parse(outer_text))
         want_inner = env.out(self.build(env, nohook).parse(inner_text))
-        st = {'n': 0, 'level': 0, 'inner': None, 'fired': False, 'fired2': False, 'third': None, 'q': None}
+        st = {'n': 0, 'level': 0, 'inner': None, 'fired': False, 'fired2': False, 'third': None, 'q': None,
+              'count': 0, 'bad_inner': None}
+        sites = None if site == 'all' else (site if isinstance(site, list) else [site])
 
         def mk():
             """a parser whose callbacks report to the controller together with the parser itself"""
@@ -209,16 +222,19 @@ class Nested(Sub):
             if me is outer and st['level'] == 0:
                 n = st['n']
                 st['n'] += 1
-                if n == site and not st['fired']:
+                if sites is None or n in sites:
                     st['fired'] = True
+                    st['count'] += 1
                     target = TARGETS[t]
                     q = prebuilt if target == 'other-prebuilt' else (mk() if target == 'other-fresh' else outer)
                     st['q'] = q
                     st['level'] = 1
                     try:
-                        st['inner'] = env.out(q.parse(inner_text))
+                        got = env.out(q.parse(inner_text))
                     finally:
                         st['level'] = 0
+                    if st['inner'] is None or got != want_inner:
+                        st['inner'] = got
                 return
             if st['level'] == 1 and me is st['q'] and deeper is not None and not st['fired2']:
                 st['fired2'] = True
@@ -242,8 +258,8 @@ class Nested(Sub):
             env.note('site beyond the template')
             return None
         env.nt()
-        env.note(TARGETS[t] + ('-d2' if st['fired2'] else ''))
-        desc = 'outer %r, at callback invocation %d evaluate %r on %s' % (outer_text, site, inner_text, TARGETS[t])
+        env.note(TARGETS[t] + ('-d2' if st['fired2'] else '') + ('-x%d' % min(st['count'], 3) if st['count'] > 1 else ''))
+        desc = 'outer %r, at callback invocation(s) %s evaluate %r on %s' % (outer_text, site, inner_text, TARGETS[t])
         if st['fired2']:
             desc += ', whose first callback evaluates %r on %s' % (INNER[deeper[0]], TARGETS[deeper[1]])
         if st['inner'] != want_inner:
